@@ -11,7 +11,8 @@ from common import Ctx, MachineryError, pmap
 # deviation flags of the tree under test
 IMPL = dict(Shared=False, SetOnAllPaths=True, ClearOnError=True, CopyOnConstruct=True)
 INTENDED = dict(Shared=True, SetOnAllPaths=True, ClearOnError=True, CopyOnConstruct=True)
-DOCS = ["plain", "colA", "colB", "multi", "fig", "fail", "share2", "share3", "paged", "pagedfn", "pagedhdr", "multi13"]
+DOCS = ["plain", "colA", "colB", "multi", "fig", "fail", "share2", "share3", "paged", "pagedfn", "pagedhdr", "multi13",
+        "share1", "sharew2", "sharew3", "brdA", "brdB", "cyc", "pagedm1", "pagedm2"]
 JUDGE = ["C14_Pure", "C14_Repeatable", "C14_DfUnchanged", "C14_Outcome", "C14_AllRan"]
 PLAN = {"quick": dict(exhaustive=1, sim_len=4, sim_num=900, model_len=2),
         "thorough": dict(exhaustive=3, sim_len=4, sim_num=12000, model_len=3)}
